@@ -49,7 +49,7 @@ def run_job(job):
                 dpath = os.path.join(workdir, f"decisions_in_{s}.txt")
                 with open(dpath, "w") as fh:
                     fh.write("\n".join(str(x) for x in job["decisions"]) + "\n")
-                plan = Plan(pseed, "replay", faults=faults, log_level=1, decisions_in=dpath)
+                plan = Plan(pseed, "replay", faults=faults, log_level=1, decisions_in=dpath, base_strategy=strategy)
             out = os.path.join(workdir, f"out{s}")
             argv = ["-o", out, "-static", "--no-fork", f"--threads={threads}",
                     f"--wild-experiments={split_par},{min_group}"] + objs
